@@ -213,10 +213,21 @@ class PropertyRun:
                 # harnesses of one crate run sequentially (shared target dir), crates in parallel
                 self.kani_jobs.append(dict(spec=ks, dir=cdir, units=kunits,
                                            fut=ex.submit(self._run_kani_crate, cdir, ks)))
+            bp = self.cfg.get('bounded_probe')
+            self.bounded_res = None
+            bp_fut = None
+            if bp and not os.environ.get('VT_NO_PROBE'):
+                from . import probes
+                bp_fut = ex.submit(probes.bounded, self.pid)
             for grp in self.groups:
                 if 'fut' in grp:
                     grp['res'] = grp['fut'].result()
                     grp['vac_res'] = grp['vac_fut'].result()
+            if bp_fut is not None:
+                try:
+                    self.bounded_res = bp_fut.result()
+                except Exception as e:
+                    self.bounded_res = dict(error=str(e), fails=[], ok=False, stats=None, cmd='', tail=str(e))
             for job in self.kani_jobs:
                 job['results'] = job['fut'].result()
 
@@ -407,6 +418,37 @@ class PropertyRun:
                     self.undecided.append('group=%s unit=%s reason=VACUOUS: `assert(false)` at the start of the unit verified -- '
                                           'preconditions/assumptions are contradictory' % (name, label))
 
+    def classify_bounded(self):
+        """bounded probe (a clause no contract reaches): every failing class is a violation with its concrete input"""
+        bp = self.cfg.get('bounded_probe')
+        self.bounded_ev = []
+        if not bp:
+            return
+        r = self.bounded_res
+        if r is None:
+            self.notes.append('bounded probe skipped (VT_NO_PROBE)')
+            self.bounded_ev.append(dict(what=bp['what'], bound=bp['bound'], ran=False, reason='VT_NO_PROBE'))
+            return
+        stats = r.get('stats')
+        if stats is None or not stats.get('cases'):
+            self.undecided.append('bounded-probe reason=the probe did not run: %s' % (r.get('tail', '')[-300:].replace('\n', ' | ')))
+            self.bounded_ev.append(dict(what=bp['what'], bound=bp['bound'], ran=False, cmd=r.get('cmd')))
+            return
+        import hashlib
+        for f in r['fails']:
+            cls = f.get('class', 'other')
+            chash = hashlib.sha1(cls.encode()).hexdigest()[:6]
+            ob = '%s/%s/bounded-probe#%s@%s:%d' % (self.pid, bp['label'], chash, bp['file'], bp['line'])
+            self.violations.append(dict(obligation=ob, unit=bp['label'], kind='bounded-probe', message=f['violated'],
+                                        clause_text='class: ' + cls, gen_file=None, gen_line=None, clause_gen_line=None,
+                                        repo_file=bp['file'], repo_line=bp['line'], rendered=f['violated'],
+                                        unit_raw=None, unit_sha256=None, group='bounded_probe',
+                                        checker_cmd=r['cmd'], identical_to_frozen=None, weaving='none (runs the real crate)',
+                                        failing_input=f['input'], verifier='bounded probe against the real crate'))
+        self.bounded_ev.append(dict(what=bp['what'], bound=bp['bound'], ran=True, cases=stats['cases'],
+                                    failing_classes=[f.get('class') for f in r['fails']], cmd=r['cmd'],
+                                    label='bounded -- not counted among the discharged obligations'))
+
     def repo_line_of(self, u, span):
         """best effort: find the highlighted source line text inside the unit's raw text"""
         if span is None:
@@ -453,7 +495,13 @@ class PropertyRun:
                        unit_text_identical_to_frozen=v['identical_to_frozen'], weaving=v.get('weaving', 'full'),
                        failing_input=None,
                        note='Verus gives no counterexample; no failing input was searched for this obligation')
-            extra = self.try_find_input(v, rep)
+            if v.get('failing_input') is not None:
+                rep['verifier'] = v.get('verifier', 'probe')
+                rep['failing_input'] = v['failing_input']
+                rep['failing_input_violates'] = v['message']
+                rep['note'] = 'found by the bounded probe running the real crate (cargo test --features verif); replay with ./check %s --replay <this file>' % self.pid
+            else:
+                self.try_find_input(v, rep)
             json.dump(rep, open(path, 'w'), indent=1)
             if rep.get('failing_input') is not None:
                 out_lines.append('VIOLATION property=%s replay=%s' % (self.pid, path))
@@ -513,7 +561,7 @@ class PropertyRun:
             samples.append(dict(obligation=v['obligation'], failed=True, message=v['message'], clause=v['clause_text']))
         # units whose only failing obligations are listed known findings are reported separately
         bad_units = set(v['unit'] for v in real_violations)
-        known_units = set(v['unit'] for v in self.violations if v['obligation'] in known_hit) - bad_units
+        known_units = set(v['unit'] for v in self.violations if v['obligation'] in known_hit and v['kind'] != 'bounded-probe') - bad_units
         obligations -= len(known_units)
         cfg = self.cfg
         assumptions = list(cfg.get('assumptions', []))
@@ -540,7 +588,7 @@ class PropertyRun:
                 known_findings_reported=sorted(known_hit),
                 units_failing_only_on_known_findings=sorted(known_units),
                 samples=samples,
-                bounded=cfg.get('bounded', []),
+                bounded=cfg.get('bounded', []) + getattr(self, 'bounded_ev', []),
                 kani=kani_ev,
             ),
             assumptions=assumptions,
@@ -640,6 +688,7 @@ def main(argv):
     run.verify_all()
     run.classify()
     run.classify_kani()
+    run.classify_bounded()
     if a.tier == 'thorough' and not os.environ.get('VT_OUT'):
         cat = run_catalogue(a.pid)
         if cat is not None:
